@@ -1720,11 +1720,10 @@ func c17FirstDiff(want, got string) string {
 // cross the limit writes nothing; "partial": it writes up to the limit and reports a short write; "nospace":
 // the same with ENOSPC (what write(2) on a full file system does to a buffered writer).
 type c17faultWriter struct {
-	buf       bytes.Buffer
-	limit     int // < 0: never fails
-	mode      string
-	failed    bool
-	lastStart int // offset at which the latest Write call began
+	buf    bytes.Buffer
+	limit  int // < 0: never fails
+	mode   string
+	failed bool
 }
 
 var errC17Fault = errors.New("c17: injected write fault")
@@ -1733,7 +1732,6 @@ func (w *c17faultWriter) Write(p []byte) (int, error) {
 	if w.failed {
 		return 0, w.err()
 	}
-	w.lastStart = w.buf.Len()
 	if w.limit < 0 || w.buf.Len()+len(p) <= w.limit {
 		return w.buf.Write(p)
 	}
@@ -1869,12 +1867,6 @@ func c17FaultOffsets(r *RNG, full string, all int, sample int) []int {
 	return offs
 }
 
-// c17FaultKnownCSV is the predicate of the known finding `csv-render-drops-final-flush-error`: the CSV renderer
-// returned nil although only its last write to the underlying writer (the Flush at the end of Render) failed.
-func c17FaultKnownCSV(renderer string, res string, off, lastStart int, full, got string) bool {
-	return renderer == "csv" && res == "nil" && off >= lastStart && strings.HasPrefix(full, got)
-}
-
 // runC17FaultOne renders tb with one renderer configuration into writers failing at the offsets; monitor:
 // Render reports an error, or what it wrote is the complete output (which the other streams judge).
 func (c *Ctx) runC17FaultOne(bt *Batch, i int, tb *c17table, renderer string, colour bool, mode string, offs []int, all int, sample int, r *RNG) {
@@ -1885,7 +1877,6 @@ func (c *Ctx) runC17FaultOne(bt *Batch, i int, tb *c17table, renderer string, co
 		return
 	}
 	full := ok.buf.String()
-	lastStart := ok.lastStart
 	if offs == nil {
 		offs = c17FaultOffsets(r, full, all, sample)
 	}
@@ -1908,8 +1899,6 @@ func (c *Ctx) runC17FaultOne(bt *Batch, i int, tb *c17table, renderer string, co
 		in["fault"] = map[string]any{"renderer": renderer, "colour": colour, "mode": mode, "offset": off, "full_len": len(full)}
 		detail := fmt.Sprintf("Render returned %s after the writer failed (%s) at byte %d of %d; written %d bytes:\n%s", res, mode, off, len(full), len(got), got)
 		switch {
-		case c17FaultKnownCSV(renderer, res, off, lastStart, full, got):
-			c.MonitorKnown("fault", i, pred, in, detail, "csv-render-drops-final-flush-error")
 		case res == "nil" && renderer == "text" && !colour:
 			// the property's own statement on what was reported as a complete table
 			bt.Add(func(mon string) {
